@@ -138,6 +138,14 @@ CORE = [w_line3, w_mesh4, w_components, w_fc_off, w_oos, w_shuffled, w_circ_loop
         g_line3, g_components, g_mesh]
 
 
+def w_three_pi():
+    """three junction-pipe valves at distinct junctions (their internal nodes are ordered by (junction, pipe) label)"""
+    return {"name": "w_three_pi", "fluid": "water", "nj": 4, "elems": [
+        E("ext_grid", j=0), E("pipe", f=0, to=1, index=0), E("pipe", f=0, to=2, index=1, length_km=0.7), E("pipe", f=0, to=3, index=2, d_mm=80.0),
+        E("valve", j=1, el=0, et="pi", index=0), E("valve", j=2, el=1, et="pi", index=1, zeta=0.9), E("valve", j=3, el=2, et="pi", index=2),
+        E("sink", j=1, mdot=0.4), E("sink", j=2, mdot=0.7), E("sink", j=3, mdot=0.2)]}
+
+
 def core_specs():
     return [f() for f in CORE]
 
